@@ -612,7 +612,52 @@ def c06():
                  explanation='Exactly-once execution of every deferred deallocation after the drain, thread-count getter vs ghost count at every call boundary, three-round bound, empty lists after the drain, for every preemption point.')
 
 
-REGISTRY = {'C05': c05, 'C06': c06, 'C03': c03, 'C04': c04, 'C14': c14, 'C17': c17, 'C08': c08, 'C10': c10, 'C13': c13, 'C16': c16, 'C02': c02, 'C01': c01, 'C07': c07, 'C11': c11, 'C12': c12, 'C15': c15}
+SCANC_SCEN = {  # scenario -> (max preemption index, what)
+    'sc_fwd_rem_mid': (120, 'forward scan of one I4 while an entry is removed'),
+    'sc_fwd_ins_grow': (120, 'forward scan while an insert grows the node I4 -> I16'),
+    'sc_rev_rem_mid': (120, 'reverse scan of one I4 while an entry is removed'),
+    'sc_from_fwd_rem': (160, 'scan_from (forward, bound not stored) in a two-level tree while an inner node on the path collapses'),
+    'sc_from_rev_ins': (160, 'scan_from (reverse) in a two-level tree while a key is inserted behind the bound'),
+    'sc_range_rem_leaf': (160, 'scan_range in a two-level tree while the last leaf under the root is removed'),
+    'sc_fwd_two_rem_inner': (160, 'forward scan of a two-level tree while the first inner node collapses onto its remaining leaf'),
+}
+SCANC_QUICK = {'sc_rev_rem_mid', 'sc_fwd_two_rem_inner'}
+
+
+def scanc_wrappers():
+    import os
+    d = os.path.join(os.path.dirname(os.path.dirname(os.path.abspath(__file__))), '_work', 'gen')
+    os.makedirs(d, exist_ok=True)
+    p = os.path.join(d, 'scanc_wrappers.c')
+    lines = ['/* generated by engine/checks.py */', 'static uint64_t ir2c_fixed_k;', 'uint64_t verif_fixed_k(void) { return ir2c_fixed_k; }']
+    for s, (kmax, _) in SCANC_SCEN.items():
+        lines.append('void %s(void);' % s)
+        for k in range(kmax + 1):
+            lines.append('void %s__k%d(void) { ir2c_fixed_k = %d; %s(); }' % (s, k, k, s))
+    txt = '\n'.join(lines) + '\n'
+    if not os.path.exists(p) or open(p).read() != txt:
+        open(p, 'w').write(txt)
+    return p
+
+
+def c09():
+    u = U('olc_scan.cpp', 'nostats', defines=['UNODB_DETAIL_VERIF_FIXED_ITER_STACK=6', 'KMAX=400'], max_node_type=2, yield_in='unodb::', extra_glue=[scanc_wrappers()], extern_c=['verif_fixed_k'],
+          cdefs=['IR2C_SPIN_BLOCKS'], stubs=['tag_ptr', 'node_type', 'node_ptr', 'lib_abort', 'keybuf_noop'], noinline=['@_ZN5unodb6detail10key_buffer(4push|3pop)E'])
+    qs = []
+    for s, (kmax, what) in SCANC_SCEN.items():
+        for k in range(kmax + 1):
+            qs.append(Query('%s__k%d' % (s, k), u, '%s__k%d' % (s, k), unwind=20, checks='pointer', replay='none', trace=False, flags=['--slice-formula'], timeout=600,
+                            tier='quick' if s in SCANC_QUICK else 'thorough',
+                            about=('scanner preempted before its %d-th atomic access by one complete operation of the writer: %s' % (k, what)) if k else 'no overlap: ' + what,
+                            bounds={'scenario': s, 'preemption_index': k, 'preemptions': 1, 'threads': 2}))
+    return Check('C09', 'exploration', qs,
+                 assumptions=OLC_ASSUME + ['iterators on the guarded fixed-capacity stack hook; write-only key_buffer stubbed; all values of a key are equal in these scenarios, so "a value its key held at some moment" is the value byte derived from the key',
+                                           'one writer operation per scan; the writer is not preempted; scans of 4-5 entries'],
+                 explanation='For every preemption point of a scan (scan, scan_from, scan_range; both directions) one complete insert or remove of another thread: strictly monotone order, interval, no key absent throughout, '
+                             'every entry present throughout delivered exactly once. Not covered: two or more writer operations per scan, two scanners, more than one preemption.')
+
+
+REGISTRY = {'C09': c09, 'C05': c05, 'C06': c06, 'C03': c03, 'C04': c04, 'C14': c14, 'C17': c17, 'C08': c08, 'C10': c10, 'C13': c13, 'C16': c16, 'C02': c02, 'C01': c01, 'C07': c07, 'C11': c11, 'C12': c12, 'C15': c15}
 
 
 def get(pid):
